@@ -50,6 +50,12 @@ FIXED_COMMITS = {"K-catch-pop": "790993c", "K-stale-error-ip-a": "26bae81", "K-s
 # ---- other properties: (property, id, status, commit, title, scenario dict)
 from sim.props import c09, c15, c12, c01, c16
 OTHER = [
+ ("C01", "K-unwind-leaves-captured-variables-open", "fixed", "0143da8",
+  "exception unwinding cut the stack back without closing open captured variables: a closure created in a try block (or callee) left by an exception pointed at a slot the collector no longer traced (use after reclaim) or that later pushes overwrote",
+  {"ir": {"gadgets": [["chain", "capture_in_scope_left_by_exception", ["closed_capture"], "vec", 1050, 0]], "reset": False}, "gc_tape": "ff" * 64, "gc_rate": 2}),
+ ("C01", "K-return-through-finally-leaves-captured-variables-open", "fixed", "32ee728",
+  "a return leaving a try block through its finally block cut the stack back without closing the block's captured variables",
+  {"ir": {"gadgets": [["chain", "capture_in_try_left_by_return", [], "vec", 1060, 2]], "reset": False}, "gc_tape": "ff" * 64, "gc_rate": 2}),
  ("C16", "K-finished-fiber-retains-closure", "fixed", "75f1d95",
   "a fiber that ran to completion kept its body closure, captured variables and call argument alive through its untouched value stack: a chain of fibers each holding its predecessor grew without bound although only two were reachable",
   {"ir": {"body": [["fiber_daisy_chain", None]], "n": 75, "sites": 0, "slots": [11], "spikes": []}, "faults": {}}),
